@@ -67,7 +67,8 @@ func (self ValueObject) IsEqual(other Value) (bool, *VmInterrupt) {
 		}
 	}
 
-	return true, nil
+	// a key that only exists on the other side makes the objects differ
+	return len(self.FieldsInternal) == len(otherObj.FieldsInternal), nil
 }
 
 func (self ValueObject) Fields() (map[string]*Value, *VmInterrupt) {
